@@ -30,6 +30,7 @@ enum Call {
     Close,
     Buf(bool),
     Fail(usize),
+    Stall(usize),
     FeedSynAck(usize, bool),
     FeedPush(usize),
     FeedFin(usize),
@@ -55,6 +56,7 @@ fn parse_call(tok: &str) -> Call {
         ["B1"] => Call::Buf(true),
         ["FAIL"] => Call::Fail(0),
         ["FAIL", k] => Call::Fail(k.parse().unwrap()),
+        ["STALL", k] => Call::Stall(k.parse().unwrap()),
         ["F", "sa", o, ok] => Call::FeedSynAck(o.parse().unwrap(), *ok == "1"),
         ["F", "psh", o] => Call::FeedPush(o.parse().unwrap()),
         ["F", "fin", o] => Call::FeedFin(o.parse().unwrap()),
@@ -82,6 +84,8 @@ struct Shared {
     blocked: HashMap<usize, bool>,
     /// the task that runs process_stream_data (the forwarding loop)
     pump: Option<usize>,
+    /// name of the point at which each task was last granted a step
+    last_grant: HashMap<usize, String>,
 }
 
 type Sh = Arc<Mutex<Shared>>;
@@ -159,6 +163,7 @@ async fn settle() {
 }
 
 async fn run_case(start: bool, groups: Vec<Vec<Call>>, sched: Vec<usize>) -> String {
+    let has_stall = groups.iter().any(|g| g.iter().any(|c| matches!(c, Call::Stall(_))));
     let sh: Sh = Arc::new(Mutex::new(Shared::default()));
     sh.lock().unwrap().next_sid = 1;
     let (reader, feed_tx) = ChanReader::new();
@@ -323,6 +328,11 @@ async fn run_case(start: bool, groups: Vec<Vec<Call>>, sched: Vec<usize>) -> Str
                             wh2.set_fail_at(Some(wh2.total() + *k));
                             break "ok";
                         }
+                        Call::Stall(k) => {
+                            // the peer stops reading: the transport accepts k more bytes, then every write stays pending
+                            wh2.set_stall_at(Some(wh2.total() + *k));
+                            break "ok";
+                        }
                         Call::FeedSynAck(o, ok) => {
                             let sid = sh2.lock().unwrap().sids.get(o).copied().unwrap_or(0xFFFF_0000 + *o as u32);
                             let data: &[u8] = if *ok { b"" } else { b"refused" };
@@ -394,6 +404,7 @@ async fn run_case(start: bool, groups: Vec<Vec<Call>>, sched: Vec<usize>) -> Str
                         g.next_sid += 1;
                         g.sids.insert(t, sid);
                     }
+                    g.last_grant.insert(t, name.clone());
                     if name == "wf.before_writer" || name == "close.before_writer" {
                         g.last_point.insert(t, "queued".into());
                     } else {
@@ -410,6 +421,10 @@ async fn run_case(start: bool, groups: Vec<Vec<Call>>, sched: Vec<usize>) -> Str
                 out.push_str(&format!("skip{} ", t));
             }
         }
+    }
+    if has_stall {
+        // let the 1 s shutdown timeout inside close() expire (virtual time)
+        tokio::time::sleep(Duration::from_secs(3)).await;
     }
     // ---- observations
     let log = wh.log();
@@ -471,6 +486,9 @@ async fn run_case(start: bool, groups: Vec<Vec<Call>>, sched: Vec<usize>) -> Str
             n.clone()
         } else if g.last_point.get(&t).map(|s| s.as_str()) == Some("queued") {
             "queued".to_string()
+        } else if g.last_grant.get(&t).map(|s| s.as_str()) == Some("wf.buffer_taken") {
+            // granted the step that writes the burst and never came back: the write is pending inside the transport
+            "stalled-in-transport".to_string()
         } else if g.pump == Some(t) {
             // not parked at a point, not queued on the writer, not returned: inside select!{notified(), recv()}
             "pump.wait".to_string()
